@@ -487,6 +487,16 @@ nni_aio_finish_impl(
 	aio->a_use_expire       = false;
 	skipped_cb              = aio->a_skipped_callback;
 	aio->a_skipped_callback = NULL;
+	if (aio->a_expiring) {
+		// The expiration thread holds this aio, and may be about to
+		// call the cancel function it took for this operation.  Let
+		// it dispatch the completion when it lets go, so that the aio
+		// cannot be reused for a new operation (which that stale call
+		// would then cancel) before that.
+		aio->a_expire_dispatch = true;
+		nni_mtx_unlock(&eq->eq_mtx);
+		return;
+	}
 	nni_mtx_unlock(&eq->eq_mtx);
 
 	if (skipped_cb != NULL) {
@@ -710,6 +720,10 @@ nni_aio_expire_loop(void *arg)
 				nni_mtx_lock(mtx);
 			}
 			aio->a_expiring = false;
+			if (aio->a_expire_dispatch) {
+				aio->a_expire_dispatch = false;
+				nni_task_dispatch(&aio->a_task);
+			}
 		}
 		nni_cv_wake(cv);
 	}
